@@ -6,7 +6,7 @@ FILE = "yowsup/layers/noise/layer_noise_segments.py"
 LAYERS = "yowsup/layers/__init__.py"
 
 fields("YowNoiseSegmentsLayer", _read_buffer=ByteArray)
-opaque(LAYERS, "YowLayer.getProp", event="getProp", returns=Opaque)
+opaque(LAYERS, "YowLayer.getProp", event="getProp", returns=Value)
 opaque(LAYERS, "YowLayer.toUpper", event="toUpper", raises=True)
 opaque(LAYERS, "YowLayer.toLower", event="toLower", raises=True)
 
